@@ -123,6 +123,9 @@ def run(rep):
         frontier = nxt
     chain_fns = {lv[0].name for lv in levels}
     rep.analysed = {'chain': [lv[0].name for lv in levels], 'bodies': len(mir.bodies)}
+    # the options reach the generating function and its sections exactly as the caller gave them (shared MIR rule, lib/wrappers.py)
+    from wrappers import check_option_passthrough
+    check_option_passthrough(rep, 'C17.options-passthrough')
     # source parameter index per chain function (1-based local), filled bottom-up
     src_param = {}
     n_gen = 0
